@@ -352,6 +352,63 @@ theorem makeAfterConsent_excluded_iff (cfg : Cfg) (s : Store) (dr : Draws) (req 
             simp only [Outcome.prepend, hr]
             intro h; cases h
 
+/-- the passkey handed to the store carries the configured initial counter -/
+theorem save_counter_of_makeAfterConsent (cfg : Cfg) (s : Store) (dr : Draws) (req : MakeReq) (flags : UInt8)
+    (p : Passkey) (uid : Bytes) (rk up uv : Bool) (f : Option Nat)
+    (h : Event.save p uid rk up uv f ∈ (makeAfterConsent cfg s dr req flags).trace) :
+    p.counter = (if cfg.counterOn then some 0 else none) := by
+  unfold makeAfterConsent at h
+  dsimp only at h
+  have hex : ∀ e ∈ (excludePhase s req).2.2, e ≠ Event.save p uid rk up uv f := by
+    intro e he heq
+    have := excludePhase_no_effect s req e he
+    rw [heq] at this; cases this
+  have hrk : ∀ e ∈ (rkPhase (excludePhase s req).2.1 req).2.2, e ≠ Event.save p uid rk up uv f := by
+    intro e he heq
+    have := rkPhase_no_effect (excludePhase s req).2.1 req e he
+    rw [heq] at this; cases this
+  have hpre : Event.save p uid rk up uv f ∉ (excludePhase s req).2.2 ++ (rkPhase (excludePhase s req).2.1 req).2.2 := by
+    intro hm
+    rw [List.mem_append] at hm
+    rcases hm with hm | hm
+    · exact hex _ hm rfl
+    · exact hrk _ hm rfl
+  split at h
+  · exact absurd h (fun hm => hex _ hm rfl)
+  · split at h
+    · exact absurd h (fun hm => hex _ hm rfl)
+    · split at h
+      · exact absurd h hpre
+      · split at h
+        · exact absurd h hpre
+        · split at h
+          · exact absurd h hpre
+          · simp only [Outcome.prepend, List.mem_append] at h
+            rcases h with h | h
+            · exact absurd (List.mem_append.mpr h) hpre
+            · unfold finishMake at h
+              dsimp only at h
+              have hsv : ∀ st : Store, ∀ pk : Passkey, (st.save pk req.userId req.rk req.up req.uv).2.2 = Event.save p uid rk up uv f →
+                  pk = p := by
+                intro st pk hh
+                unfold Store.save at hh
+                split at hh <;> (simp only [Event.save.injEq] at hh; exact hh.1)
+              split at h <;>
+              · simp only [List.mem_cons, List.not_mem_nil, or_false] at h
+                rcases h with h | h
+                · unfold Store.info at h; cases h
+                · have := hsv _ _ h.symm
+                  rw [← this]; rfl
+
+theorem find_event (s : Store) (ids : Option (List Bytes)) (rp : Bytes) :
+    ∃ r, (s.find ids rp).2.2 = Event.find ids rp r := ⟨_, rfl⟩
+
+theorem getD_append_len {α} (l1 l2 : List α) (n j : Nat) (d : α) (h : l1.length = n) :
+    (l1 ++ l2).getD (n + j) d = l2.getD j d := by
+  subst h
+  rw [List.getD_eq_getElem?_getD, List.getD_eq_getElem?_getD, List.getElem?_append_right (by omega)]
+  simp
+
 theorem up_bit_of_flags (p v : Bool) (extra : UInt8) (h : extra &&& (Flags.UP ||| Flags.UV) = 0) :
     (((Flags.DEFAULT ||| flagsOf p v) ||| extra) &&& AuthData.Spec.bitUP != 0) = p
     ∧ (((Flags.DEFAULT ||| flagsOf p v) ||| extra) &&& AuthData.Spec.bitUV != 0) = v := by
